@@ -338,7 +338,11 @@ def main(prop, modname, tier, nproc=None):
                     mismatches.append({"case": w["case"], "why": out.get("why"), "observed": out.get("observed"), "expect": w.get("expect")})
                 else:
                     validated += 1
-            for v in r["violations"]:
+        # counterexamples: round-robin over the cases, so that one case with many unconfirmable ones cannot use up the replay budget
+        import itertools as _it
+        order = [v for tup in _it.zip_longest(*[r["violations"] for r in results]) for v in tup if v is not None]
+        for _once in (0,):
+            for v in order:
                 if v.get("kind") is None:
                     spurious.append({"violation": v, "why": "no replay kind"})
                     continue
